@@ -795,7 +795,6 @@ func parseOut(s string) ob {
 
 // known (recorded) signatures are reported only when nothing else is wrong in the run
 var knownSigs = map[string]bool{
-	"C37:rejected-restart-leaves-mutex-locked": true,
 	"C37:timeout-count-decreases-at-cap":       true,
 	"C37:setphase-lost-update":                 true,
 }
@@ -963,7 +962,7 @@ func main() {
 			return 3000
 		},
 		Fixed: [][]string{
-			// the negation witness of ops_return: a rejected Restart leaves r.mutex locked
+			// regression guard for repo commit 4a40ef6: a rejected Restart must leave r.mutex free (it used to leave it locked)
 			{"new 5 1 0", "addnb 7 2", "restart", "getshares", "setphase 4", "gettimeout", "addshare 1 3", "dump"},
 			// the negation witness of timeout_monotone: the cap is applied to a count set above it
 			{"new 5 1 0", "settimeout 5", "inctimeout 77 0", "gettimeout", "dump"},
